@@ -48,6 +48,7 @@ MODELLED = [T_ + "PosePath3D." + f for f in ("__init__", "positions_xyz", "orien
        "evo/core/sync.py:associate_trajectories", "evo/core/sync.py:matching_time_indices", "evo/core/result.py:merge_results"]
 
 MUT = ("tf", "sc", "red", "pj", "al", "mf", "ao", "ds")
+NEED_STAMPS = ("assoc", "merge", "split_time", "split_speed")
 DERIVS = ("copy", "assoc", "merge", "split_time", "split_dist", "split_speed", "self", "align_origin", "align")
 
 
@@ -57,14 +58,19 @@ def gen_scenarios(ctx):
     n_s = 4000 if ctx.thorough else 700
     for i in range(n_s):
         grid = r.random() < 0.5
-        if grid:
-            b = H.grid_base(r, True, r.choice(["se3", "pq"]), n=r.choice([2, 3, 4, 6]))
-            n = len(b["stamps"])
+        deriv = DERIVS[i % len(DERIVS)] if i < 12 * len(DERIVS) else r.choice(DERIVS)
+        # both classes: a plain PosePath3D (no stamps) wherever the derivation exists for it
+        timed = deriv in NEED_STAMPS or r.random() < 0.6
+        if i < 12 * len(DERIVS):
+            timed = deriv in NEED_STAMPS or (i // len(DERIVS)) % 2 == 0
+        if grid or i < 12 * len(DERIVS):
+            # size boundary first: sources with exactly 1 and 2 poses for every derivation and class
+            n = [1, 1, 2, 2, 3, 3][(i // len(DERIVS)) // 2] if i < 12 * len(DERIVS) else r.choice([1, 2, 3, 4, 6])
+            b = H.grid_base(r, timed, r.choice(["se3", "pq"]), n=n)
+            grid = True
         else:
             b, n = H.rand_base(r, 25)
-            if b["stamps"] is None:
-                b["stamps"] = [float(k) * 0.1 for k in range(n)]
-        deriv = DERIVS[i % len(DERIVS)] if i < 4 * len(DERIVS) else r.choice(DERIVS)
+            b["stamps"] = [float(k) * 0.1 for k in range(n)] if timed else None
         pre = [{"op": "rd", "v": r.choice(["pos", "quat", "se3"])} for _ in range(r.randint(0, 3))]
         ops = []
         full, _ = H.grid_alphabet(r)
@@ -73,7 +79,7 @@ def gen_scenarios(ctx):
             if grid:
                 ops.append(r.choice(pool))
             else:
-                o = H.rand_ops(r, n, True, 1)[0]
+                o = H.rand_ops(r, n, timed, 1)[0]
                 if o["op"] in MUT or (o["op"] == "rd" and o["v"] in ("pos", "quat", "se3")):
                     ops.append(o)
         if not any(o["op"] in MUT for o in ops):
@@ -127,10 +133,12 @@ def kept(old, new):
 
 def second_input(case, A):
     """a second trajectory for associate / merge: same poses moved, stamps slightly shifted / interleaved"""
-    from evo.core.trajectory import PoseTrajectory3D
+    from evo.core.trajectory import PoseTrajectory3D, PosePath3D
+    c = copy.deepcopy(A)
+    if not hasattr(A, "timestamps"):
+        return PosePath3D(positions_xyz=np.array(c.positions_xyz) + 1.0, orientations_quat_wxyz=np.array(c.orientations_quat_wxyz))
     st = np.asarray(A.timestamps, dtype=float)
     d = float(np.min(np.diff(st))) if len(st) > 1 else 1.0
-    c = copy.deepcopy(A)
     return PoseTrajectory3D(positions_xyz=np.array(c.positions_xyz) + 1.0, orientations_quat_wxyz=np.array(c.orientations_quat_wxyz),
                             timestamps=st + d / 8.0)
 
@@ -220,7 +228,7 @@ def run_scenario(case):
     before = shown(A)
     A2, before2 = None, None
     d = case["deriv"]
-    st = np.asarray(A.timestamps, dtype=float)
+    st = np.asarray(A.timestamps, dtype=float) if hasattr(A, "timestamps") else None
     info = {}
     if d == "copy":
         derived, dtok, k = [copy.deepcopy(A)], "copy", 0
@@ -242,7 +250,8 @@ def run_scenario(case):
         from evo.core import geometry, lie_algebra as lie
         B0 = second_input(case, A)
         b_init = H.init_toks({"ctor": "pq", "xyz": np.array(B0.positions_xyz).tolist(),
-                              "quat": np.array(B0.orientations_quat_wxyz).tolist(), "stamps": np.array(B0.timestamps).tolist()})
+                              "quat": np.array(B0.orientations_quat_wxyz).tolist(),
+                              "stamps": np.array(B0.timestamps).tolist() if hasattr(B0, "timestamps") else None})
         if d == "align_origin":
             T = B0.align_origin(A)
             rd, ob = ["rd se3"], ["rd se3", f"tf L {H.pose_toks(T)} {H.norm_tok(T)}"]
@@ -268,14 +277,16 @@ def run_scenario(case):
                                        "quat": np.array(A2.orientations_quat_wxyz).tolist(),
                                        "stamps": np.array(A2.timestamps).tolist()})
     else:
-        # splitters: choose a threshold that cuts (or not) according to case["gap"]
+        # splitters: choose a threshold that cuts (or not) according to case["gap"]; with fewer than two poses every
+        # splitter takes its early-out (`[copy.deepcopy(self)]`), which is a scenario of its own
+        forced = []
         if n < 2:
-            return None
-        if d == "split_time":
+            parts = {"split_time": lambda: A.split_time_gaps(0.5), "split_dist": lambda: A.split_distance_gaps(0.5),
+                     "split_speed": lambda: A.split_speed_outliers(0.5)}[d]()
+        elif d == "split_time":
             diffs = np.diff(st)
             thr = float(np.sort(diffs)[min(len(diffs) - 1, int(case["gap"] * len(diffs)))]) if case["gap"] > 0 else float(np.max(diffs)) + 1.0
             parts = A.split_time_gaps(thr)
-            forced = []
         elif d == "split_dist":
             dd = np.diff(copy.deepcopy(A).distances)
             thr = float(np.sort(dd)[min(len(dd) - 1, int(case["gap"] * len(dd)))]) if case["gap"] > 0 else float(np.max(dd)) + 1.0
@@ -295,11 +306,11 @@ def run_scenario(case):
         for L in lens:
             bounds.append(bounds[-1] + L)
         # code path: split_distance_gaps always builds parts from slices; the two others deep-copy self when nothing is cut
-        cut = 1 if (d == "split_dist" or len(parts) > 1) else 0
+        cut = 1 if n >= 2 and (d == "split_dist" or len(parts) > 1) else 0
         k = min(len(parts) - 1, int(case["which"] * len(parts)))
         derived, dtok = list(parts), f"split {cut} {core.natlist(bounds)} {k}"
         info["lens"] = lens
-    share0 = [shares(p, A) for p in derived]
+    share0 = [(p is A) or shares(p, A) for p in derived]
     share0_2 = [shares(p, A2) for p in derived] if A2 is not None else []
     B = derived[k]
     op_toks, trace = [], []
@@ -516,8 +527,8 @@ class Factory:
     """synthesises arguments from parameter names and annotations (deterministic per rng)"""
     counter = 0
 
-    def __init__(self, rng, tmp):
-        self.r, self.tmp, self.k, self.open_handles = rng, tmp, 0, []
+    def __init__(self, rng, tmp, size=None):
+        self.r, self.tmp, self.k, self.open_handles, self.size = rng, tmp, 0, [], size
 
     def traj(self, timed=True, n=None):
         while True:
@@ -525,6 +536,11 @@ class Factory:
             n0 = len(b.get("poses", b.get("xyz")))
             if n0 >= 4:
                 break
+        if self.size:       # size-boundary variants: trajectories with exactly 1 / 2 poses
+            for key in ("poses", "xyz", "quat", "stamps"):
+                if b.get(key) is not None:
+                    b[key] = b[key][:self.size]
+            n0 = self.size
         if timed and b["stamps"] is None:
             b["stamps"] = [100.0 + 0.1 * k for k in range(n0)]
         if not timed:
@@ -839,7 +855,7 @@ def callables():
 def frame_case(ctx, qual, cls, fn, variant, tmp):
     """returns (status, detail)"""
     rng = random.Random(f"{ctx.seed}/{qual}/{variant}")
-    fac = Factory(rng, tmp)
+    fac = Factory(rng, tmp, size={0: 1, 1: 2}.get(variant))     # variants 0 and 1: one-pose and two-pose trajectories
     recv = None
     if isinstance(fn, property):
         recv = receiver_for(cls, fac)
@@ -958,7 +974,7 @@ def frame_case(ctx, qual, cls, fn, variant, tmp):
 def run_frames(ctx):
     tmp = tempfile.mkdtemp(prefix="evo_c16_")
     variants = 20 if ctx.thorough else 6
-    uncovered, covered, raised = {}, 0, {}
+    uncovered, covered, raised, why = {}, 0, {}, {}
     for qual, cls, fn in callables():
         if qual in EXCLUDED:
             uncovered[qual] = "excluded: " + EXCLUDED[qual]
@@ -969,11 +985,15 @@ def run_frames(ctx):
             try:
                 status, changed, shared, touched, args = frame_case(ctx, qual, cls, fn, v, tmp)
             except Skip as e:
-                uncovered[qual] = str(e)
-                break
+                why[qual] = str(e)
+                if v >= 2:
+                    break
+                continue          # the size-boundary variants may be impossible for this callable (e.g. RPE on one pose)
             except Exception as e:  # noqa: BLE001   (argument synthesis failed)
-                uncovered[qual] = f"argument synthesis failed: {type(e).__name__}: {str(e)[:80]}"
-                break
+                why[qual] = f"argument synthesis failed: {type(e).__name__}: {str(e)[:80]}"
+                if v >= 2:
+                    break
+                continue
             ok_any = True
             ctx.count("dist", "frame:" + ("returned" if status == "returned" else "raised"))
             if status != "returned":
@@ -991,6 +1011,8 @@ def run_frames(ctx):
             ctx.record(case, status == "returned")
         if ok_any:
             covered += 1
+        elif qual in why:
+            uncovered[qual] = why[qual]
     import shutil
     shutil.rmtree(tmp, ignore_errors=True)
     ctx.notes["frame_callables_covered"] = covered
